@@ -1,9 +1,18 @@
 package props
 
 import (
+	"context"
 	"fmt"
+	"io"
+	"os"
+	"path/filepath"
 	"strconv"
 	"strings"
+	"time"
+
+	goreadline "github.com/chzyer/readline"
+	"github.com/jig/lisp/env"
+	"github.com/jig/lisp/lib/core/nscore"
 
 	lisp "github.com/jig/lisp"
 	"github.com/jig/lisp/repl"
@@ -283,12 +292,123 @@ func init() {
 				}
 			},
 		}
+		// the REPL loop itself: every expression typed token by token (one per line), then a sentinel
+		var gs *enum.Grammar
+		gsOf := func() *enum.Grammar {
+			if gs == nil {
+				gs = c16Grammar(4)
+			}
+			return gs
+		}
+		sessW := func() int {
+			if tier == "thorough" {
+				return 4
+			}
+			return 3
+		}
+		sessions := &vf.Family{
+			Name:    "repl-sessions",
+			Bounds:  "every well-formed expression of weight <=3 (quick) / <=4 (thorough) typed into the real repl.Execute loop (through pipes) one token per line and two tokens per line, comments included, followed by a sentinel expression: the sentinel must be evaluated exactly once (the expression was recognised as complete at its last line, neither earlier nor never)",
+			Setup:   func(t string) { tier = t },
+			Timeout: 60 * time.Second,
+			N:       func(t string) int64 { tier = t; return gsOf().Count(0, sessW()) * 2 },
+			Describe: func(i int64) string {
+				return strconv.Quote(strings.Join(c16Lines(toksOf(gsOf().Unrank(0, i/2)), int(i%2)+1), "\n"))
+			},
+			Run: func(i int64, r *vf.Rec) {
+				toks := toksOf(gsOf().Unrank(0, i/2))
+				lines := c16Lines(toks, int(i%2)+1)
+				if len(lines) > 1 {
+					r.NT()
+				}
+				out, err := c16Session(append(append([]string{}, lines...), `(str "SENT" "INEL")`))
+				r.Exec(1)
+				if err != "" {
+					r.Violation("REPL session does not terminate", err)
+					return
+				}
+				if n := strings.Count(out, "SENTINEL"); n != 1 {
+					r.Violation("REPL does not recognise a complete multi-line expression", fmt.Sprintf("typed %q then a sentinel expression; the sentinel was evaluated %d times; REPL printed %q", lines, n, out))
+				}
+			},
+		}
 		return &vf.Check{
 			ID: "C16", Level: "model_checking",
 			Rule: "every well-formed expression of the bounded grammar is cut at every token boundary and extended/mutated by every closing bracket; an independent bracket-stack recogniser decides which cuts are completable by closers and names the innermost closer; the reader's error and the REPL's own multiLine verdict (through a test-only export) must match; non-trivial = the expression had at least one constrained cut",
 			Assumptions: []string{"cuts are at token boundaries; cuts ending in a prefix macro, an odd map or a non-string key are outside the property"},
-			Families: []*vf.Family{fam},
+			Families: []*vf.Family{fam, sessions},
 		}
 	})
 }
 var _ = lisp.PRINT
+
+
+// c16Lines renders tokens as typed lines, per tokens per line (a comment token ends its line).
+func c16Lines(toks []string, per int) []string {
+	var lines []string
+	var cur []string
+	for _, t := range toks {
+		if isComment(t) {
+			cur = append(cur, strings.TrimSuffix(t, "\n"))
+			lines = append(lines, strings.Join(cur, " "))
+			cur = nil
+			continue
+		}
+		cur = append(cur, t)
+		if len(cur) >= per {
+			lines = append(lines, strings.Join(cur, " "))
+			cur = nil
+		}
+	}
+	if len(cur) > 0 {
+		lines = append(lines, strings.Join(cur, " "))
+	}
+	return lines
+}
+
+// c16Session types the lines into the real REPL loop (repl.Execute) through pipes and returns
+// what it printed. readline reads plain lines when its input is not a terminal.
+func c16Session(typed []string) (string, string) {
+	home := filepath.Join(vf.VerifDir, ".work", "c16home", fmt.Sprint(os.Getpid()))
+	os.MkdirAll(home, 0o755)
+	os.Setenv("HOME", home)
+	ns := env.NewEnv()
+	if err := nscore.Load(ns); err != nil {
+		return "", err.Error()
+	}
+	inR, inW, err := os.Pipe()
+	if err != nil {
+		return "", err.Error()
+	}
+	outR, outW, err := os.Pipe()
+	if err != nil {
+		return "", err.Error()
+	}
+	oldIn, oldOut, oldErr, oldStdout := goreadline.Stdin, goreadline.Stdout, goreadline.Stderr, os.Stdout
+	goreadline.Stdin, goreadline.Stdout, goreadline.Stderr, os.Stdout = inR, outW, outW, outW
+	defer func() {
+		goreadline.Stdin, goreadline.Stdout, goreadline.Stderr, os.Stdout = oldIn, oldOut, oldErr, oldStdout
+	}()
+	go func() {
+		io.WriteString(inW, strings.Join(typed, "\n")+"\n")
+		inW.Close() // ^D
+	}()
+	printed := make(chan string, 1)
+	go func() {
+		b, _ := io.ReadAll(outR)
+		printed <- string(b)
+	}()
+	finished := make(chan error, 1)
+	go func() { finished <- repl.Execute(context.Background(), ns) }()
+	select {
+	case <-finished:
+	case <-time.After(20 * time.Second):
+		outW.Close()
+		return "", "repl.Execute did not return within 20 s after end of input"
+	}
+	outW.Close()
+	inR.Close()
+	out := <-printed
+	outR.Close()
+	return out, ""
+}
